@@ -24,6 +24,10 @@ CACHE = os.path.join(ROOT, ".cache", "sweep")
 CLAUSE_PROPERTY = {
     "StoreObs": "C01", "StoreAct": "C01", "StoreReward": "C01", "StoreNext": "C01", "StoreTerm": "C01", "StoredNotProduced": "C01",
     "StoreTrunc": "C01", "FinalBufferFaithful": "C01", "LearnerOnCurrentEstimate": "C14", "InnerCallStart": "C11", "InnerReturnedCount": "C11",
+    # rows that reach a learner (prepared batches of the on-policy routines) are single real environment steps; the experience
+    # record of a model-based tabular learner (Dyna-Q's Counter) equals the multiset of environment steps so far
+    "LearnRowObs": "C01", "LearnRowAct": "C01", "LearnRowReward": "C01", "LearnRowNext": "C01", "LearnRowTerm": "C01",
+    "RecordNotProduced": "C01", "RecordCount": "C01", "RecordReward": "C01", "RecordMissing": "C01",
     "CondFaithful": "C01", "ExploredActionPassed": "C01", "ChosenActionPassed": "C01", "ActionWithoutChoice": "C01",
     "ActionInBounds": "C10",
     "NoStepAfterEnd": "C11", "BudgetRespected": "C11", "StopsAtEpisodeLimit": "C11", "NoLearnBeforeWarmup": "C11", "ReturnedCount": "C11",
@@ -248,7 +252,9 @@ LOOP_INVS = ["StoredFaithful", "FirstOfEpisodeFromReset", "CondFaithful", "Budge
 LOOP_DEVS = {"stale_after_reset": ("C01", None), "store_done_flag": ("C01", "StoredFaithful"), "learn_early": ("C11", "NoLearnBeforeWarmup"),
              "break_before_count": ("C11", "ReturnedCount"), "return_plus_one": ("C11", "ReturnedCount"), "step_after_end": ("C11", None),
              # action ActOnStaleChoice: execute the choice made at the successor before the update instead of evaluating the current estimate
-             "stale_choice": ("C13", "ExecutedActionGreedy")}
+             "stale_choice": ("C13", "ExecutedActionGreedy"),
+             # prepared batch whose columns are flattened in different orders / experience record with shared reward lists
+             "misaligned_batch": ("C01", "StoredFaithful"), "shared_reward_list": ("C01", "StoredFaithful")}
 
 
 def _loop_rows(pid):
@@ -297,6 +303,21 @@ def binding_canary(traces, field="obs", ev="add", clause="StoreObs"):
                 e["n"] = e["n"] + 1
             elif field == "term":
                 e["term"] = not e["term"]
+            elif field == "lrows.act":
+                # a prepared batch whose action column is rotated against the observation column
+                rows = e["lrows"]
+                if len(rows) < 2 or "act" not in rows[0].get("has", []) or len({str(r["act"]) for r in rows}) < 2:
+                    continue
+                acts = [r["act"] for r in rows]
+                for r, a_ in zip(rows, acts[1:] + acts[:1]):
+                    r["act"] = a_
+            elif field == "rec.rs":
+                # an experience record whose first entry lost its reward list to a transition that never happened
+                if not e.get("readable") or not e["rec"]:
+                    continue
+                x = dict(e["rec"][0])
+                x["next"] = [x["next"][0] + 7] + list(x["next"][1:])
+                e["rec"] = list(e["rec"]) + [x]
             out, r, _ = loopbind.validate([bad], tag="canary")
             if clause not in {c for _, c in out["canary"]["viol"]}:
                 raise tlc.MachineryError(f"binding canary: corrupted {ev}.{field} not rejected by clause {clause}")
